@@ -143,6 +143,21 @@ def r_read_auto(repo, rep, R='R8.5'):
                     cut.append(show(s_)[:80])
     if not seen:
         raise AnalysisError('%s: read_auto never constructs the line reader' % RD)
+    # every line that is parsed is handed on: one result per tree line of the file, whatever the tree is
+    dropped, n_parsed = [], 0
+    for st, o in SymExec(fn, unroll=1).run():
+        if o == 'raise' or not all_calls(st, N('_AutoLineReader')):
+            continue
+        n_parsed += 1
+        ys = [e for e in st.events if e[0] == 'expr' and isinstance(e[1], tuple) and e[1][0] == 'yield']
+        ys += [e for e in st.events if e[0] == 'yield']
+        if not ys:
+            after = [show(c)[:60] for c, pol, _ in st.conds if any(x[0] == 'call' and x[1][0] == 'attr' and x[1][2] == 'parse' for x in subterms(c))
+                     or any(x[0] == 'unpack' for x in subterms(c))]
+            dropped.append(after[-1] if after else 'a path without yield')
+    if n_parsed:
+        rep.check(not dropped, R, w, 'read_auto:yields-every-tree', 'every tree line that is parsed is yielded (%d parsing paths)' % n_parsed,
+                  'a parsed tree is skipped depending on its content (%s): the file reads back with fewer trees than were written, and later trees shift' % sorted(set(dropped))[:2])
     rep.check(not cut, R, w, 'read_auto:whole-line', 'the reader gets the whole line (only surrounding blanks removed)',
               'only a part of the line reaches the reader: %s -- a word or tag containing the marker is cut off' % sorted(set(cut))[:2])
     rep.check(not changed, R, w, 'read_auto:line-as-written', 'the text of the line is handed on as it is in the file (no case / encoding / normal-form conversion)',
